@@ -179,6 +179,10 @@ func GenConfig(t *rapid.T, p *Profile) Config {
 		c.RefReload = genTable(t, p, "refreload", true)
 		c.RefFail = genTable(t, p, "reffail", true)
 	}
+	if c.ExpDur != nil && c.RefDur != nil && rapid.IntRange(0, 3).Draw(t, "sameDur") == 0 {
+		// refresh interval == lifetime (the refresh time is never earlier than the expiration time)
+		copy(c.RefDur, c.ExpDur)
+	}
 	if rapid.IntRange(0, 4).Draw(t, "constcalc") == 0 {
 		// the constant-duration constructors (ExpiryCreating(d), ExpiryWriting(d), RefreshCreating(d), RefreshWriting(d))
 		c.ConstCalc = true
